@@ -93,6 +93,11 @@ async fn create_stream(
             )
         })?;
     let response = Json(mapper::map_stream(stream));
+    // Journal the ID that was actually assigned, so that replay cannot derive another one.
+    let command = CreateStream {
+        stream_id: Some(stream.stream_id),
+        ..command
+    };
 
     let system = system.downgrade();
     let stream_id = command.stream_id;
